@@ -568,6 +568,8 @@ pub struct Routes {
     /// that was made ready and is then dropped gives its slot back as well.
     pub slots: Option<Arc<Slots>>,
     pub reservation: Reservation,
+    /// every connect waits at this gate first (so that a test decides when a dial completes)
+    pub dial_gate: Option<(Gates, String)>,
 }
 
 pub struct Slots {
@@ -660,6 +662,7 @@ impl tower::Service<http::request::Parts> for Routes {
     fn call(&mut self, parts: http::request::Parts) -> Self::Future {
         // the slot travels with the connect
         let reservation = std::mem::take(&mut self.reservation);
+        let dial_gate = self.dial_gate.clone();
         let authority = parts.uri.authority().map(|a| a.as_str().to_ascii_lowercase()).unwrap_or_default();
         let scheme = parts.uri.scheme_str().unwrap_or("").to_string();
         // an entry "tls|authority" / "plain|authority" (by the scheme the transport is asked for) wins over "authority"
@@ -675,6 +678,9 @@ impl tower::Service<http::request::Parts> for Routes {
         Box::pin(async move {
             let _reservation = reservation;
             let seq = log.next();
+            if let Some((gates, name)) = dial_gate {
+                gates.wait(&name).await;
+            }
             let res: Result<Braid, RouteError> = match target {
                 None => Err(RouteError(format!("no route for authority {authority:?}"))),
                 Some(Target::Duplex(c, buf)) => c.connect(buf).await.map(Braid::from).map_err(|e| RouteError(format!("duplex connect: {e}"))),
